@@ -14,7 +14,8 @@ RULE = ('recordings of length 1..L (incl. shorter than the window) x 1..4 channe
         'int32/int64/uint32/uint64 incl. spikes at 0, at the last sample, within n//2 of both ends and on '
         'every chunk/file boundary; windows 1..9 (odd and even); channel rows with and without -1, as '
         'arrays and as Python lists; unit factors 1, 2, 1.0, 0.5, 2.5; store queries in any order; '
-        'TemplateModel.get_waveforms on generated datasets. non-trivial = at least one spike whose window '
+        'TemplateModel.get_waveforms on generated datasets. Also: file names not in sorted order, exports over an earlier export / foreign bytes, window length as a NumPy integer, non-finite samples on a channel reached only through -1, the subset store exported again (same model / a model opened on the earlier store). '
+        'non-trivial = at least one spike whose window '
         'crosses an edge or a chunk boundary, or >= 2 spikes')
 ASSUMPTIONS = ['.npy byte layout and np.load are transport', 'factor multiplication is exact on the generated values',
                'subset store (op model_store): the spike selection (random, C17) and the per-template channel order '
